@@ -51,6 +51,10 @@ func equalValue(x, y reflect.Value) bool {
 	if ok1 && ok2 {
 		return rx.Cmp(ry) == 0
 	}
+	if ok1 != ok2 {
+		// A number is never equal to a non-number. (A json.Number has kind String.)
+		return false
+	}
 	if x.Kind() != y.Kind() {
 		return false
 	}
